@@ -8,8 +8,17 @@ import Morlock.Model.Fen
 namespace Morlock.Model.UciSeq
 open Morlock.Model
 
-/-- `strings.Fields` (for ASCII-space separated text: non-empty pieces of `strings.Split(s, " ")`). -/
-def fields (s : List Char) : List (List Char) := (Fen.splitSpaces s).filter (· ≠ [])
+/-- Split at every white-space character in the sense of `unicode.IsSpace` (`Fen.isSpace`); the pieces may be empty. -/
+def splitWs (s : List Char) : List (List Char) :=
+  let rec go : List Char → List Char → List (List Char)
+    | [], cur => [cur.reverse]
+    | c :: cs, cur => if Fen.isSpace c then cur.reverse :: go cs [] else go cs (c :: cur)
+  go s []
+
+/-- `strings.Fields`: the maximal runs of characters that are not white space in the sense of
+    `unicode.IsSpace` — blank, `\t \n \v \f \r`, U+0085, U+00A0 and the Unicode `Z` category, i.e.
+    `Fen.isSpace` (for ASCII-only text Go uses the table `asciiSpace`, the ASCII part of the same set). -/
+def fields (s : List Char) : List (List Char) := (splitWs s).filter (· ≠ [])
 
 /-- `continuation(last, line)`: `none` = not an extension; `some rest` = the extra words. -/
 def continuation (last line : List Char) : Option (List (List Char)) :=
